@@ -199,6 +199,25 @@ def _breadth_rule(idx, res, name: str, f, h: ast.ExceptHandler, raised: Dict[str
 
 
 def check(ctx, res) -> None:
+    _check_main(ctx, res)
+    # ---- R10.12 (=R11.1, content changes): rollback calls undo() on the sub-changes already done; for a content change that is
+    # only a rollback if undo writes back what do read (and nothing else)
+    from . import c11
+    from .. import report
+
+    tmp = report.Results("C11")
+    c11.check(ctx, tmp)
+    got = [i for i in tmp.instances if i.rule == "R11.1" and i.key.endswith("|ChangeContents")]
+    if not got:
+        raise AnalysisError("anchor=R11.1 instance for ChangeContents not produced")
+    for i in got:
+        res.add("R10.12", "ChangeContents|undo-restores-what-do-read", i.status == report.OK if i.status != report.UNDECIDED else None, i.where, i.what, **i.detail)
+
+
+    common.order_only_restore_rule(ctx, res, "R10.13")
+
+
+def _check_main(ctx, res) -> None:
     idx = ctx.idx
     comp = common.composite_change(idx)
     raised = _raised_exception_classes(idx)
